@@ -115,6 +115,19 @@ fn drop_probe<T>(value: T, needles: &[Vec<u8>], use_it: impl FnOnce(&T)) -> (boo
     }
 }
 
+/// The same on the heap: the value lives in a Box whose storage goes back to the allocator right after the
+/// drop. Nothing reads the storage afterwards from the compiler's point of view, so an erasure written as an
+/// ordinary store (instead of zeroize's volatile write) is removed by dead-store elimination in optimised
+/// builds - the freed block, snapshotted by the allocator hook, then still holds the secret.
+#[inline(never)]
+fn drop_probe_heap<T>(value: T, needles: &[Vec<u8>], use_it: impl FnOnce(&T)) -> (bool, bool, usize) {
+    let b = Box::new(value);
+    use_it(&b);
+    let (_, blocks, _) = record(move || drop(b));
+    let mine: Vec<Vec<u8>> = blocks.into_iter().filter(|x| x.len() == std::mem::size_of::<T>()).collect();
+    (window_found(&mine, needles), mine.iter().all(|b| b.iter().all(|x| *x == 0)), std::mem::size_of::<T>())
+}
+
 pub fn exec(op: &str, a: &[Vec<u8>]) -> Out {
     macro_rules! need {
         ($e:expr) => {
@@ -253,6 +266,49 @@ pub fn exec(op: &str, a: &[Vec<u8>]) -> Out {
                     let shared = s.diffie_hellman(&x25519_dalek::PublicKey::from(aux));
                     let needle = shared.to_bytes().to_vec();
                     drop_probe(shared, &[needle], |s| {
+                        let _ = s.was_contributory();
+                    })
+                }
+                6 => {
+                    use ed25519_dalek::Signer;
+                    let sk = ed25519_dalek::SigningKey::from_bytes(&k);
+                    let exp = ed25519_dalek::hazmat::ExpandedSecretKey::from(&k);
+                    let needles = vec![k.to_vec(), sk.to_scalar_bytes().to_vec(), exp.scalar.to_bytes().to_vec(), exp.hash_prefix.to_vec()];
+                    drop_probe_heap(sk, &needles, |s| {
+                        let _ = s.sign(&aux);
+                    })
+                }
+                7 => {
+                    let exp = ed25519_dalek::hazmat::ExpandedSecretKey::from(&k);
+                    let needles = vec![exp.scalar.to_bytes().to_vec(), exp.hash_prefix.to_vec()];
+                    drop_probe_heap(exp, &needles, |e| {
+                        let vk = ed25519_dalek::VerifyingKey::from(e);
+                        let _ = ed25519_dalek::hazmat::raw_sign::<sha2::Sha512>(e, &aux, &vk);
+                    })
+                }
+                8 => {
+                    let s = x25519_dalek::EphemeralSecret::random_from_rng(ByteRng::new(&k));
+                    drop_probe_heap(s, &[k.to_vec()], |s| {
+                        let _ = x25519_dalek::PublicKey::from(s);
+                    })
+                }
+                9 => {
+                    let s = x25519_dalek::ReusableSecret::random_from_rng(ByteRng::new(&k));
+                    drop_probe_heap(s, &[k.to_vec()], |s| {
+                        let _ = s.diffie_hellman(&x25519_dalek::PublicKey::from(aux));
+                    })
+                }
+                10 => {
+                    let s = x25519_dalek::StaticSecret::from(k);
+                    drop_probe_heap(s, &[k.to_vec()], |s| {
+                        let _ = s.diffie_hellman(&x25519_dalek::PublicKey::from(aux));
+                    })
+                }
+                11 => {
+                    let s = x25519_dalek::StaticSecret::from(k);
+                    let shared = s.diffie_hellman(&x25519_dalek::PublicKey::from(aux));
+                    let needle = shared.to_bytes().to_vec();
+                    drop_probe_heap(shared, &[needle], |s| {
                         let _ = s.was_contributory();
                     })
                 }
